@@ -14,7 +14,7 @@ import ast
 from typing import Dict, List, Optional, Set
 
 from ..model import Program, AnalysisError, ClassInfo
-from ..report import RuleResult
+from ..report import RuleResult, guard
 from ..astutil import src
 from ..evalproto import summarize, Summary, Site, Emission
 
@@ -1186,12 +1186,97 @@ def cmp_apply(prog: Program) -> RuleResult:
     return r
 
 
+def cond_fold(prog: Program) -> RuleResult:
+    """and_(...), or_(...), entity(x, ...), refinement(...) take conditions that may be plain Python values (ConditionType allows bool):
+    `False` is a condition like any other and becomes an operand.  Whoever folds the conditions given into an operator chain therefore
+    never asks a *condition* for its truth - "has the chain started", "is there a condition at all" are questions about None / a length."""
+    from ..model import walk_local
+    from ..astutil import site
+
+    r = RuleResult("COND-FOLD", "no condition given to a query constructor is tested for truth while the operator chain is built", floor=3)
+    n = 0
+    for f in sorted(prog.functions.values(), key=lambda x: x.qual):
+        if f.cls is not None or not f.module.name.endswith(("entity_query_language.entity", "entity_query_language.symbolic", "entity_query_language.rule")):
+            continue
+        va = f.node.args.vararg
+        if va is None:
+            continue
+        ann = src(va.annotation) if va.annotation is not None else ""
+        if "Condition" not in ann and va.arg not in ("conditions", "properties"):
+            continue
+        n += 1
+        # collections of conditions (the vararg, list(vararg), slices of it) and single conditions (their elements, locals taking one)
+        colls, elems = {va.arg}, set()
+        for _ in range(3):
+            for x in walk_local(f.node):
+                if isinstance(x, ast.Assign) and len(x.targets) == 1 and isinstance(x.targets[0], ast.Name):
+                    t, v = x.targets[0].id, x.value
+                    if isinstance(v, ast.Call) and isinstance(v.func, ast.Name) and v.func.id in ("list", "tuple", "reversed") and v.args and isinstance(v.args[0], ast.Name) and v.args[0].id in colls:
+                        colls.add(t)
+                    if isinstance(v, ast.Subscript) and isinstance(v.value, ast.Name) and v.value.id in colls:
+                        (colls if isinstance(v.slice, ast.Slice) else elems).add(t)
+                    branches = [v.body, v.orelse] if isinstance(v, ast.IfExp) else [v]
+                    if any(isinstance(b, ast.Name) and b.id in elems for b in branches):
+                        elems.add(t)
+                    if any(isinstance(b, ast.Subscript) and isinstance(b.value, ast.Name) and b.value.id in colls and not isinstance(b.slice, ast.Slice) for b in branches):
+                        elems.add(t)
+                tg = x.target if isinstance(x, (ast.For, ast.comprehension)) else None
+                if tg is not None and isinstance(tg, ast.Name) and isinstance(x.iter, ast.Name) and x.iter.id in colls:
+                    elems.add(tg.id)
+
+        def is_cond(e) -> bool:
+            if isinstance(e, ast.Name):
+                return e.id in elems
+            if isinstance(e, ast.NamedExpr):
+                return is_cond(e.value) or is_cond(e.target)
+            return isinstance(e, ast.Subscript) and isinstance(e.value, ast.Name) and e.value.id in colls and not isinstance(e.slice, ast.Slice)
+
+        bad = None
+        for x in walk_local(f.node):
+            tests = []
+            if isinstance(x, (ast.If, ast.While, ast.IfExp, ast.Assert)):
+                tests.append(x.test)
+            if isinstance(x, ast.comprehension):
+                tests += x.ifs
+            if isinstance(x, ast.BoolOp):
+                tests += x.values[:-1]
+            if isinstance(x, ast.UnaryOp) and isinstance(x.op, ast.Not):
+                tests.append(x.operand)
+            if isinstance(x, ast.Call) and isinstance(x.func, ast.Name) and x.func.id in ("bool", "any", "all") and x.args:
+                tests.append(x.args[0])
+            if isinstance(x, ast.Call) and isinstance(x.func, ast.Name) and x.func.id == "filter" and len(x.args) == 2 and isinstance(x.args[0], ast.Constant) and x.args[0].value is None:
+                tests.append(ast.Name(id=next(iter(elems), "")) if isinstance(x.args[1], ast.Name) and x.args[1].id in colls else x.args[1])
+            for t in tests:
+                todo = [t]
+                while todo:
+                    y = todo.pop()
+                    if isinstance(y, ast.BoolOp):
+                        todo += y.values
+                    elif isinstance(y, ast.UnaryOp) and isinstance(y.op, ast.Not):
+                        todo.append(y.operand)
+                    elif is_cond(y) or (isinstance(y, ast.Name) and y.id in colls and isinstance(x, ast.Call)):
+                        bad = bad or (x, y)
+        r.check(bad is None, f"{f.short}#conditions-not-truth-tested", site(f, bad[0]) if bad else site(f), f"conditions: *{va.arg}; single: {sorted(elems)}",
+                "the conditions are only counted, passed on and compared with None",
+                f"`{src(bad[1]) if bad else ''}` is a condition the caller gave and is asked for its truth in `{src(bad[0])[:70] if bad else ''}`: a condition that is the plain value False "
+                f"(a flag, the result of a symbolic function called with ground arguments) is dropped from the chain instead of making it unsatisfiable")
+    if n < 3:
+        raise AnalysisError(f"COND-FOLD: only {n} constructors taking *conditions found")
+    return r
+
+
 def _ep_bound(prog):
     # a value that is bound already is used as it is, whatever it is: re-enumerating it (a falsy element of a flattened collection taken
     # for 'not bound') gives rows that are no consistent assignment
     from .c02 import ep_bound
 
     return ep_bound(prog)
+
+
+def _domain_given(prog):
+    from .c13 import domain_given
+
+    return domain_given(prog)
 
 
 def _live_iter(prog):
@@ -1213,4 +1298,4 @@ def run(prog: Program, tier: str) -> List[RuleResult]:
     from .c03 import domain_cache
 
     _cache.clear()
-    return [ep_thread(prog), ep_neg(prog), ep_filter(prog), ep_selected(prog), ep_union_pass(prog), ep_operand(prog), domain_cache(prog), ep_universal(prog), ep_empty(prog), ep_quant(prog), _ep_bound(prog), cmp_apply(prog), _live_iter(prog), _hv_truth(prog)]
+    return [guard(lambda: ep_thread(prog)), guard(lambda: ep_neg(prog)), guard(lambda: ep_filter(prog)), guard(lambda: ep_selected(prog)), guard(lambda: ep_union_pass(prog)), guard(lambda: ep_operand(prog)), guard(lambda: domain_cache(prog)), guard(lambda: ep_universal(prog)), guard(lambda: ep_empty(prog)), guard(lambda: ep_quant(prog)), guard(lambda: _ep_bound(prog)), guard(lambda: cmp_apply(prog)), guard(lambda: _live_iter(prog)), guard(lambda: _hv_truth(prog)), guard(lambda: cond_fold(prog)), guard(lambda: _domain_given(prog))]
